@@ -32,6 +32,7 @@ pub const FRAME: u32 = 1024;
 const ZERO: u8 = 0;
 const ONE: u8 = 1;
 const IS: u8 = 12; // RegId::IS
+const SSP: u8 = 4;
 const SP: u8 = 5;
 const FP: u8 = 6;
 const HP: u8 = 7;
@@ -103,6 +104,14 @@ pub struct Weights {
     /// long values, ranges around 2^256-1 and byte-carry keys, legacy instructions on
     /// dynamic values, reserved status registers). 0 keeps the original output.
     pub storage_rich: u32,
+    /// weight of the `frame` family: accesses aimed at the boundaries of the owned
+    /// regions ($ssp, $sp, $hp, the caller's saved $hp/$ssp, the call frame, the code,
+    /// the tx image, the balance table, the last bytes of memory). 0 = family off.
+    pub frame: u32,
+    /// per-mille probability that a generated *contract* starts with a counted
+    /// self-call (`b` parameter of its own call frame, masked to 0..63, decremented per
+    /// level; the contract's own id is taken from its call frame). 0 = off.
+    pub recurse: u32,
 }
 
 impl Default for Weights {
@@ -128,6 +137,8 @@ impl Default for Weights {
             flood: 0,
             flood_n: 0,
             storage_rich: 0,
+            frame: 0,
+            recurse: 0,
         }
     }
 }
@@ -1250,6 +1261,156 @@ impl<'a> Gen<'a> {
         self.emit(op::flag(ZERO));
     }
 
+    /// Accesses aimed at the boundaries of the regions a frame owns (C24/C34 workload).
+    fn frame(&mut self) {
+        let (p, q, l) = (16u8, 17u8, 18u8);
+        let v = self.val();
+        let shrink = self.rng.chance(1, 10);
+        if shrink {
+            // shrink the stack first: the bytes above the new $sp stay readable but are
+            // no longer owned
+            self.emit(op::cfsi(64));
+        }
+        match self.rng.below(18) {
+            0 => self.emit(op::subi(p, SP, 8)),
+            1 => self.emit(op::move_(p, SP)),
+            2 => self.emit(op::move_(p, SSP)),
+            3 => self.emit(op::subi(p, SSP, 8)),
+            4 => self.emit(op::move_(p, HP)),
+            5 => self.emit(op::subi(p, HP, 8)),
+            6 => self.emit(op::subi(p, HP, 1)),
+            // saved registers of the caller live at $fp + 64 + 8*i ($ssp 4, $sp 5, $fp 6,
+            // $hp 7); in a script ($fp = 0) these loads give arbitrary table bytes
+            7 => self.emit(op::lw(p, FP, 15)),
+            8 => {
+                self.emit(op::lw(p, FP, 15));
+                self.emit(op::subi(p, p, 8));
+            }
+            9 => self.emit(op::move_(p, FP)),
+            10 => self.emit(op::subi(p, FP, 8)),
+            11 => self.emit(op::lw(p, FP, 12)),
+            12 => {
+                self.emit(op::lw(p, FP, 13));
+                self.emit(op::subi(p, p, 8));
+            }
+            13 => self.load_const(p, (1 << 26) - 8),
+            14 => {
+                let d = self.rng.below(9);
+                self.load_const(p, (1 << 26) - d)
+            }
+            15 => self.emit(op::movi(p, self.rng.below(700) as u32)),
+            16 => self.emit(op::move_(p, IS)),
+            // the code-size word of the own call frame
+            _ => self.emit(op::addi(p, FP, 576)),
+        }
+        if self.rng.chance(1, 6) {
+            // nudge the pointer across the boundary
+            match self.rng.below(4) {
+                0 => self.emit(op::addi(p, p, 1)),
+                1 => self.emit(op::subi(p, p, 1)),
+                2 => self.emit(op::addi(p, p, 8)),
+                _ => self.emit(op::subi(p, p, 7)),
+            }
+        }
+        match self.rng.below(14) {
+            0 | 1 => self.emit(op::sw(p, v, 0)),
+            2 => self.emit(op::sb(p, v, 0)),
+            3 => self.emit(op::mcli(p, [1u32, 8, 8, 16, 0][self.rng.usize_below(5)])),
+            4 => {
+                self.emit(op::movi(l, self.rng.below(40) as u32));
+                self.emit(op::mcl(p, l));
+            }
+            5 => {
+                self.ptr_loc(q, 512);
+                self.emit(op::mcpi(p, q, 8));
+            }
+            6 => self.emit(op::lw(v, p, 0)),
+            7 => self.emit(op::lb(v, p, 0)),
+            8 => {
+                self.ptr_loc(q, 0);
+                self.emit(op::mcpi(q, p, 8));
+            }
+            9 => {
+                self.ptr_loc(q, 64);
+                self.emit(op::movi(l, 8));
+                if self.rng.bool() {
+                    self.emit(op::s256(p, q, l));
+                } else {
+                    self.emit(op::k256(p, q, l));
+                }
+            }
+            10 => {
+                self.emit(op::movi(l, self.rng.below(24) as u32));
+                self.emit(op::logd(ZERO, ZERO, p, l));
+            }
+            11 => {
+                self.ptr_loc(q, 128);
+                self.emit(op::movi(l, 8));
+                self.emit(op::meq(v, p, q, l));
+            }
+            12 => {
+                self.emit(op::shw(p, v, 0));
+                self.emit(op::sqw(p, v, 0));
+            }
+            _ => {
+                self.ptr_loc(q, 256);
+                self.emit(op::movi(l, self.rng.below(24) as u32));
+                self.emit(op::mcp(p, q, l));
+            }
+        }
+        if shrink {
+            self.emit(op::cfei(64));
+        }
+    }
+
+    /// Counted self-call of a contract (C34 workload): `b` of the own call frame, masked
+    /// to 0..63, is the remaining depth; the callee id is copied from the own frame.
+    fn self_recursion(&mut self) {
+        let (cnt, cs, g) = (16u8, 17u8, 19u8);
+        let a = self.val();
+        self.emit(op::lw(cnt, FP, 74)); // b parameter at $fp + 592
+        self.emit(op::andi(cnt, cnt, 0x3f));
+        self.emit(op::jnzf(cnt, ZERO, 1)); // b != 0: skip the next instruction
+        let at = self.here();
+        self.emit(op::noop()); // placeholder: jump over the block
+        self.emit(op::addi(cs, R_LOC, 960));
+        self.emit(op::mcpi(cs, FP, 32));
+        self.emit(op::subi(cnt, cnt, 1));
+        self.emit(op::sw(cs, a, 4));
+        self.emit(op::sw(cs, cnt, 5));
+        if self.rng.bool() {
+            self.emit(op::not(g, ZERO));
+        } else {
+            self.emit(op::move_(g, CGAS));
+        }
+        // zero coins of an arbitrary asset (the 32 bytes of the own id)
+        self.emit(op::call(cs, ZERO, cs, g));
+        let skip = (self.here() - at - 1) as u32;
+        self.code[at] = w(op::jmpf(ZERO, skip & 0x3ffff));
+    }
+
+    /// Unconditional call of `callee` (chain scenarios: contract k calls k-1 first thing).
+    fn chained_call(&mut self, callee: &ContractId) {
+        let (cs, amt, ap, g) = (16u8, 17u8, 18u8, 19u8);
+        let mut st = callee.as_ref().to_vec();
+        st.extend_from_slice(&self.rng.word().to_be_bytes());
+        st.extend_from_slice(&self.rng.word().to_be_bytes());
+        let off = self.data(&st);
+        self.ptr_data(cs, off);
+        if self.rng.chance(1, 8) {
+            self.emit(op::movi(amt, self.rng.below(3) as u32));
+        } else {
+            self.emit(op::move_(amt, ZERO));
+        }
+        self.asset_ptr(ap);
+        if self.rng.bool() {
+            self.emit(op::not(g, ZERO));
+        } else {
+            self.emit(op::move_(g, CGAS));
+        }
+        self.emit(op::call(cs, amt, ap, g));
+    }
+
     /// loops / jumps / subroutines around a small body
     fn flow(&mut self, depth: u32, in_sub: bool) {
         let mut pick = self.rng.below(7);
@@ -1404,7 +1565,7 @@ impl<'a> Gen<'a> {
         let internal = self.mode == Mode::Contract;
         let pred = self.mode == Mode::Predicate;
         let wt = self.w.clone();
-        let table: [(u32, u8); 14] = [
+        let table: [(u32, u8); 15] = [
             (wt.alu, 0),
             (wt.mem, 1),
             (wt.stack, 2),
@@ -1419,6 +1580,8 @@ impl<'a> Gen<'a> {
             (if depth < 2 { wt.flow } else { 0 }, 11),
             (wt.wide, 12),
             (if pred { 0 } else { wt.ldc }, 13),
+            // new families go last so that a zero weight leaves earlier picks unchanged
+            (wt.frame, 14),
         ];
         let total: u32 = table.iter().map(|t| t.0).sum();
         let mut x = self.rng.below(total.max(1) as u64) as u32;
@@ -1444,6 +1607,7 @@ impl<'a> Gen<'a> {
             10 => self.introspect(),
             11 => self.flow(depth, in_sub),
             13 => self.load_code(),
+            14 => self.frame(),
             _ => self.wide(),
         }
     }
@@ -1542,8 +1706,20 @@ impl<'a> Gen<'a> {
 
 /// Generate a program with `n` top-level snippets.
 pub fn generate(rng: &mut Rng, env: &Env, mode: Mode, weights: Weights, n: usize) -> Program {
+    generate_chained(rng, env, mode, weights, n, None)
+}
+
+/// As [`generate`]; with `first_call = Some(id)` the program calls that contract right
+/// after its prelude (chain scenarios for deep call nesting).
+pub fn generate_chained(rng: &mut Rng, env: &Env, mode: Mode, weights: Weights, n: usize, first_call: Option<&ContractId>) -> Program {
     let mut g = Gen::new(rng, env, mode, weights);
     g.prelude();
+    if let Some(id) = first_call {
+        g.chained_call(id);
+    }
+    if mode == Mode::Contract && g.w.recurse > 0 && g.rng.below(1000) < g.w.recurse as u64 {
+        g.self_recursion();
+    }
     if g.w.flood > 0 && g.rng.below(1000) < g.w.flood as u64 {
         let k = g.rng.usize_below(n + 1);
         g.body(k, 0, false);
